@@ -27,7 +27,10 @@ def hparse(api: ParseAPI, pub_prv: str, key_type: str, s: str) -> Any:
         return None
     parse_method_name = "%s_deserialize" % key_type
     parse_method = getattr(api._network.keys, parse_method_name, lambda *args: None)
-    return parse_method(data)
+    try:
+        return parse_method(data)
+    except ValueError:
+        return None
 
 
 class ParseAPI(object):
